@@ -581,6 +581,25 @@ func c07Calls(n ast.Node, into map[string]bool) {
 	}
 }
 
+// c07SelfAllCall: the tree contains a data="all" call of the template `name`.  A param added to such a
+// template is declared by the callee too, so data="all" forwards it: by the rules it is used.
+func c07SelfAllCall(n ast.Node, name string) bool {
+	if n == nil {
+		return false
+	}
+	if c, ok := n.(*ast.CallNode); ok && c.AllData && c.Name == name {
+		return true
+	}
+	if p, ok := n.(ast.ParentNode); ok {
+		for _, c := range p.Children() {
+			if c07SelfAllCall(c, name) {
+				return true
+			}
+		}
+	}
+	return false
+}
+
 // msgSites: the expressions inside a {msg}: placeholders and {plural}.
 func (w *c07Walker) msgSites(ns []ast.Node) {
 	for _, c := range ns {
@@ -685,24 +704,32 @@ func c07Sites(files []*ast.SoyFileNode) []c07Site {
 				addDoc(name)
 			}
 		}
-		w.add("unused-param", style, func() { addParam("zzP") })
-		w.add("unused-param", style+":use-captured-by-let", func() {
-			addParam("zzP")
-			nh := t.nhead
-			if nh > 0 {
-				nh++
-			}
-			insertAt(t.node.Body, nh, &ast.LetValueNode{Name: "zzP", Expr: intLitNode(1)}, printRef("zzP"))
-		})
-		w.add("unused-param", style+":use-captured-by-loop", func() {
-			addParam("zzP")
-			nh := t.nhead
-			if nh > 0 {
-				nh++
-			}
-			insertAt(t.node.Body, nh, &ast.ForNode{Var: "zzP", List: &ast.ListLiteralNode{Items: []ast.Node{intLitNode(1)}},
-				Body: &ast.ListNode{Nodes: []ast.Node{printRef("zzP")}}})
-		})
+		// a template that calls itself with data="all" forwards every param to itself: a new param is used, not a violation
+		selfAll := c07SelfAllCall(t.node, t.node.Name)
+		if !selfAll {
+			w.add("unused-param", style, func() { addParam("zzP") })
+		}
+		if !selfAll {
+			w.add("unused-param", style+":use-captured-by-let", func() {
+				addParam("zzP")
+				nh := t.nhead
+				if nh > 0 {
+					nh++
+				}
+				insertAt(t.node.Body, nh, &ast.LetValueNode{Name: "zzP", Expr: intLitNode(1)}, printRef("zzP"))
+			})
+		}
+		if !selfAll {
+			w.add("unused-param", style+":use-captured-by-loop", func() {
+				addParam("zzP")
+				nh := t.nhead
+				if nh > 0 {
+					nh++
+				}
+				insertAt(t.node.Body, nh, &ast.ForNode{Var: "zzP", List: &ast.ListLiteralNode{Items: []ast.Node{intLitNode(1)}},
+					Body: &ast.ListNode{Nodes: []ast.Node{printRef("zzP")}}})
+			})
+		}
 		w.add("soydoc-and-header-params", style, func() {
 			switch {
 			case t.nhead > 0:
@@ -981,6 +1008,28 @@ var c07Corpus = []struct {
 	{"undeclared name in a quoted data expression", false, "{namespace ns}\n/** @param p */\n{template .t}\n{$p}{call .u data=\"$m\" /}\n{/template}\n/** @param? q */\n{template .u}\n{if $q}y{/if}\n{/template}\n"},
 	{"undeclared name in a msg placeholder", false, "{namespace ns}\n/** @param p */\n{template .t}\n{msg desc=\"d\"}{$p} and {$zz}{/msg}\n{/template}\n"},
 	{"undeclared name in plural", false, "{namespace ns}\n/** @param p */\n{template .t}\n{msg desc=\"d\"}{plural $n}{case 1}one{default}{$p}{/plural}{/msg}\n{/template}\n"},
+	{"let re-bound before it is used", false, "{namespace ns}\n/** @param p */\n{template .t}\n{$p}{let $x: 1 /}{let $x: 2 /}{$x}\n{/template}\n"},
+	{"let used, then re-bound and used", true, "{namespace ns}\n/** @param p */\n{template .t}\n{$p}{let $x: 1 /}{$x}{let $x: 2 /}{$x}\n{/template}\n"},
+	{"let shadowed by a loop variable and never used", false, "{namespace ns}\n/** @param p */\n{template .t}\n{$p}{let $x: 1 /}{foreach $x in [1]}{$x}{/foreach}\n{/template}\n"},
+	{"let used by the list of a loop over the same name", true, "{namespace ns}\n/** @param p */\n{template .t}\n{$p}{let $x: [1] /}{foreach $x in $x}{$x}{/foreach}\n{/template}\n"},
+	{"let of an inner block re-binding an outer let that is used later", true, "{namespace ns}\n/** @param p */\n{template .t}\n{let $x: 1 /}{if $p}{let $x: 2 /}{$x}{/if}{$x}\n{/template}\n"},
+	{"param named ij is never used by $ij", false, "{namespace ns}\n/** @param ij */\n{template .t}\n{$ij.k}\n{/template}\n"},
+	{"$ij needs no declaration", true, "{namespace ns}\n/** @param p */\n{template .t}\n{$p}{$ij.k}\n{/template}\n"},
+	{"index of an outer loop variable inside an inner loop", true, "{namespace ns}\n/** @param p */\n{template .t}\n{foreach $i in $p}{foreach $j in [1]}{index($i)}{$j}{/foreach}{/foreach}\n{/template}\n"},
+	{"index of a loop variable after its loop", false, "{namespace ns}\n/** @param p */\n{template .t}\n{foreach $i in $p}{$i}{/foreach}{index($i)}\n{/template}\n"},
+	{"index of a loop variable in ifempty", false, "{namespace ns}\n/** @param p */\n{template .t}\n{foreach $i in $p}{$i}{ifempty}{index($i)}{/foreach}\n{/template}\n"},
+	{"data expr does not excuse an undeclared explicit param", false, "{namespace ns}\n/** @param p */\n{template .t}\n{call .u data=\"$p\"}{param zz: 1 /}{/call}\n{/template}\n/** @param q */\n{template .u}\n{$q}\n{/template}\n"},
+	{"data=all with an explicit param for what the caller does not declare", true, "{namespace ns}\n/** @param p */\n{template .t}\n{call .u data=\"all\"}{param q: 1 /}{/call}\n{/template}\n/** @param p\n @param q */\n{template .u}\n{$p}{$q}\n{/template}\n"},
+	{"data=all under a let of the forwarded name: the param is still forwarded and used", true, "{namespace ns}\n/** @param p */\n{template .t}\n{let $p: 1 /}{$p}{call .u data=\"all\" /}\n{/template}\n/** @param p */\n{template .u}\n{$p}\n{/template}\n"},
+	{"data=all does not forward a let", false, "{namespace ns}\n/** @param p */\n{template .t}\n{$p}{let $q: 1 /}{$q}{call .u data=\"all\" /}\n{/template}\n/** @param q */\n{template .u}\n{$q}\n{/template}\n"},
+	{"cross-file call by full name, all required params passed", true, "{namespace a.x}\n/** @param p */\n{template .main}\n{call b.y.item}{param q: $p /}{/call}\n{/template}\n=====\n{namespace b.y}\n/** @param q\n @param? r */\n{template .item}\n{$q}{if $r}y{/if}\n{/template}\n"},
+	{"cross-file call by full name, required param missing", false, "{namespace a.x}\n/** @param p */\n{template .main}\n{$p}{call b.y.item}{param r: 1 /}{/call}\n{/template}\n=====\n{namespace b.y}\n/** @param q\n @param? r */\n{template .item}\n{$q}{if $r}y{/if}\n{/template}\n"},
+	{"cross-file data=all forwards what the caller declares", true, "{namespace a.x}\n/** @param q */\n{template .main}\n{call b.y.item data=\"all\" /}\n{/template}\n=====\n{namespace b.y}\n/** @param q */\n{template .item}\n{$q}\n{/template}\n"},
+	{"cross-file: the callee is defined in a later file", true, "{namespace a.x}\n/** @param p */\n{template .main}\n{call a.x.late}{param q: $p /}{/call}\n{/template}\n=====\n{namespace a.x}\n/** @param q */\n{template .late}\n{$q}\n{/template}\n"},
+	{"cross-file: relative call to a template of the same namespace in another file", true, "{namespace a.x}\n/** @param p */\n{template .main}\n{call .late}{param q: $p /}{/call}\n{/template}\n=====\n{namespace a.x}\n/** @param q */\n{template .late}\n{$q}\n{/template}\n"},
+	{"cross-file: relative call does not reach another namespace", false, "{namespace a.x}\n/** @param p */\n{template .main}\n{$p}{call .item /}\n{/template}\n=====\n{namespace b.y}\n{template .item}\nx\n{/template}\n"},
+	{"cross-file: template name defined in two files", false, "{namespace a.x}\n/** @param p */\n{template .t}\n{$p}\n{/template}\n=====\n{namespace a.x}\n/** @param p */\n{template .t}\n{$p}\n{/template}\n"},
+	{"cross-file: a violation in the second file only", false, "{namespace a.x}\n/** @param p */\n{template .t}\n{$p}\n{/template}\n=====\n{namespace b.y}\n/** @param p */\n{template .t}\n{$zz}{$p}\n{/template}\n"},
 	{"let inside msg", true, "{namespace ns}\n/** @param p */\n{template .t}\n{msg desc=\"d\"}{$p} and {$p}{/msg}\n{/template}\n"},
 }
 
@@ -1023,10 +1072,18 @@ func runC07(e *env) {
 	for i := 0; i < n; i++ {
 		var tmpls []*gtemplate
 		o := progOpts{depth: 3, directives: true, allParams: true, totalCalls: i%2 == 0, onTemplates: func(ts []*gtemplate) { tmpls = ts },
-			headerDefaults: true, dupShort: i%3 == 0, aliases: i%4 < 2}
+			headerDefaults: true, dupShort: i%3 == 0, aliases: i%4 < 2, scope: i%5 == 1 || i%5 == 3}
 		files, _, _, feats := genBundle(e.rng, o)
 		for f := range feats {
 			e.res.Histogram["feat:"+f]++
+		}
+		e.res.Histogram[fmt.Sprintf("bundle:files=%d", min(len(files), 4))]++
+		{
+			nsOf := map[string]bool{}
+			for _, t := range tmpls {
+				nsOf[t.ns] = true
+			}
+			e.res.Histogram[fmt.Sprintf("bundle:namespaces=%d", min(len(nsOf), 4))]++
 		}
 		trees, err := c07Parse(files)
 		if err != nil {
